@@ -26,7 +26,7 @@ ASSUMPTIONS = [
 REQUIRED = [
     "calls.Av.count", "calls.Av.of_length", "calls.Av.up_to_length", "calls.Av.first", "calls.Av.enumeration",
     "calls.Av.__contains__", "calls.Av.is_subclass", "calls.Av._ensure_level", "hook.levels_checked",
-    "op.clear", "op.iter_resumed", "op.rehandle", "op.in_sweep", "op.cli_count", "faults.injected", "histories.mesh", "histories.classical", "subclass.true", "subclass.false",
+    "op.clear", "op.iter_resumed", "op.rehandle", "op.in_sweep", "op.cli_count", "op.flood_of_other_classes", "faults.injected", "histories.mesh", "histories.classical", "subclass.true", "subclass.false",
 ]
 MIN_NONTRIVIAL = 100
 CTX = None
@@ -457,6 +457,20 @@ def run_ops(ctx, raw_enc, ops):
             other.count(op[2])
             if op[2] > 1:
                 list(itertools.islice(other.of_length(op[2] - 1), 3))
+        elif kind == "flood":
+            # many OTHER classes come into being while this one (and its half-consumed iterators) is still held
+            import random as _random
+
+            r2 = _random.Random(op[2])
+            made = 0
+            while made < op[1]:
+                k = r2.choice([4, 5, 5, 6])
+                try:
+                    Av([Perm(r2.sample(range(k), k)), Perm(r2.sample(range(5), 5))]).count(r2.choice([0, 1, 2]))
+                    made += 1
+                except ValueError:
+                    pass
+            ctx.count("op.flood_of_other_classes")
         elif kind == "iter_open":
             what, arg = op[1], op[2]
             if what == "first" and infinite:
@@ -658,6 +672,11 @@ def run(ctx, spec):
             # long members asked for while only a few levels exist (mesh classes need not be closed under prefixes)
             Av.clear_cache()
             chk_history(ctx, raw_enc, [["count", rng.choice([0, 1, 2, 2, 3])], ["in_sweep", 4], ["in_sweep", 5], ["count", 3], ["in_sweep", 5]])
+        # a class built to some depth, an iterator left open, then hundreds of other classes, then the held objects are asked again
+        for _ in range(2):
+            raw_enc = [rand_perm(rng, rng.choice([3, 3, 4])) for _ in range(rng.randint(1, 2))]
+            chk_history(ctx, raw_enc, [["count", 4], ["iter_open", "up_to", 5], ["iter_adv", 0, 3], ["flood", rng.choice([300, 530, 1100]), rng.randrange(10 ** 9)],
+                                       ["count", 5], ["of_length", 3], ["iter_drain", 0], ["in", rand_perm(rng, 5)], ["up_to", 4], ["old_handle", 0], ["count", 6]])
         chk_construct(ctx, [])
         chk_construct(ctx, [[]])
         chk_construct(ctx, [[], [0, 1]])
